@@ -88,11 +88,24 @@ func (x *Exec) atLoopHeader(st *State, lp *loop, from *ssa.BasicBlock) bool {
 			v1 := x.evalInt(env, ls.Decreases)
 			x.oblige(st, keyName+":decreases", "decreases", "", and(le("0", v0), lt(v1, v0)))
 		}
+		for _, k := range x.frameKeys(st, fr, lp, ls) {
+			if g := x.frameGoal(st, k); g != "" {
+				x.oblige(st, keyName+":keep:frame:"+k, "frame", "implicit invariant: not in the function's modifies clause, so unchanged on every object that existed at entry", g)
+			}
+		}
 		st.dead = true
 		return false
 	}
 	for _, c := range ls.Inv {
 		x.oblige(st, keyName+":init:"+c.Label, "invariant", c.Src, x.evalBool(env, c.E))
+	}
+	// implicit frame invariants: a heap array the loop may write but the function's modifies clause does not
+	// list must agree with its entry value on every object that existed at entry, before and after every iteration
+	fkeys := x.frameKeys(st, fr, lp, ls)
+	for _, k := range fkeys {
+		if g := x.frameGoal(st, k); g != "" {
+			x.oblige(st, keyName+":init:frame:"+k, "frame", "implicit invariant (frame)", g)
+		}
 	}
 	// havoc: phis, modified heap, iterators
 	override := map[*ssa.Phi]Val{}
@@ -118,7 +131,17 @@ func (x *Exec) atLoopHeader(st *State, lp *loop, from *ssa.BasicBlock) bool {
 			}
 		}
 		for _, k := range sortedKeys(mods) {
+			if strings.HasPrefix(k, "extern!") {
+				continue
+			}
 			x.havocKey(st, k)
+			if strings.HasPrefix(k, "C%") && !mods["extern!"+k] {
+				// only variables of this function (and of inlined callees) are assigned in the loop: every cell
+				// that existed when the function was entered keeps its content
+				x.useTop()
+				st.assume(fmt.Sprintf("(forall ((o!c Int)) (! (=> (<= (top o!c) |alloc@0|) (= (select %s o!c) (select %s o!c))) :pattern ((select %s o!c))))",
+					x.hget(st.H, k), x.hget(before, k), x.hget(st.H, k)))
+			}
 		}
 	}
 	// variables captured by closures live in heap cells; one that is assigned exactly once, in the entry
@@ -186,6 +209,11 @@ func (x *Exec) atLoopHeader(st *State, lp *loop, from *ssa.BasicBlock) bool {
 					it.seen = s
 				}
 			}
+		}
+	}
+	for _, k := range fkeys {
+		if g := x.frameGoal(st, k); g != "" {
+			st.assume(g)
 		}
 	}
 	env = x.frameEnv(st)
@@ -311,7 +339,19 @@ func (x *Exec) addrMods(addr ssa.Value, out map[string]bool) {
 		} else if at, ok := under(t).(*types.Array); ok {
 			x.elemKeys(at.Elem(), out, seen)
 		} else {
-			x.leafKeysAt(cellKey(t), t, out, seen)
+			tmp := map[string]bool{}
+			x.leafKeysAt(cellKey(t), t, tmp, seen)
+			local := false
+			switch addr.(type) {
+			case *ssa.Alloc, *ssa.FreeVar:
+				local = true // a variable of this function or of a lexically enclosing one: its cell was allocated after entry
+			}
+			for k := range tmp {
+				out[k] = true
+				if !local {
+					out["extern!"+k] = true // written through a pointer of unknown origin
+				}
+			}
 		}
 	}
 }
@@ -433,6 +473,9 @@ func (x *Exec) specMods(spec *FuncSpec, fn *ssa.Function, out map[string]bool) b
 		}
 		for k := range x.patternKeys(p, tctx) {
 			out[k] = true
+			if strings.HasPrefix(k, "C%") {
+				out["extern!"+k] = true
+			}
 		}
 	}
 	return false
@@ -520,4 +563,67 @@ func (x *Exec) writeOnce(al *ssa.Alloc) bool {
 	}
 	x.onceMemo[al] = res
 	return res
+}
+
+// allowedKeys: the heap arrays the contract of the function under verification lets it modify (nil: all).
+func (x *Exec) allowedKeys() (map[string]bool, bool) {
+	if x.allowDone {
+		return x.allowed, x.allowAll
+	}
+	x.allowDone = true
+	x.allowed = map[string]bool{}
+	if x.spec == nil || x.spec.Trusted || x.spec.Lemma {
+		x.allowAll = true
+		return x.allowed, true
+	}
+	tctx := x.P.typeCtxFor(x.spec, x.top)
+	for _, p := range x.spec.Modifies {
+		if p == "*" {
+			x.allowAll = true
+			return x.allowed, true
+		}
+		if strings.HasPrefix(p, "callback:") {
+			continue
+		}
+		for k := range x.patternKeys(p, tctx) {
+			x.allowed[k] = true
+		}
+	}
+	return x.allowed, false
+}
+
+// frameKeys: arrays the loop may write that the function's contract does not allow it to modify.
+func (x *Exec) frameKeys(st *State, fr *Frame, lp *loop, ls *LoopSpec) []string {
+	allowed, all := x.allowedKeys()
+	if all {
+		return nil
+	}
+	mods, allMod := x.loopMods(st, fr, lp)
+	if allMod {
+		return nil
+	}
+	for _, p := range ls.Modifies {
+		for k := range x.patternKeys(p, x.P.typeCtxFor(nil, fr.fn)) {
+			mods[k] = true
+		}
+	}
+	var ks []string
+	for _, k := range sortedKeys(mods) {
+		if strings.HasPrefix(k, "extern!") || allowed[k] {
+			continue
+		}
+		ks = append(ks, k)
+	}
+	return ks
+}
+
+// frameGoal: array k agrees with its entry value on every object that existed at entry ("" when trivially so).
+func (x *Exec) frameGoal(st *State, k string) string {
+	now := x.hget(st.H, k)
+	was := x.hget(Heap{}, k)
+	if now == was {
+		return ""
+	}
+	x.useTop()
+	return fmt.Sprintf("(forall ((o!f Int)) (! (=> (<= (top o!f) |alloc@0|) (= (select %s o!f) (select %s o!f))) :pattern ((select %s o!f))))", now, was, now)
 }
